@@ -31,6 +31,21 @@ Verif.Model.WmptOps; `abs` = the spec tree of an in-memory node):
                    `GetBlockProof(b)` names, for every block, the key whose cumulative-weight interval contains b;
   C09_root_through_storage: and `Root()` = hash of the independent canonical construction from the live set
 
+Fixed-width arithmetic. The model computes weights over unbounded naturals / integers; the Go code uses `uint64`
+weights and an `int64` delta, which wrap modulo 2^64. Model/WmptU64.lean has the wrap-around copies `insertU` /
+`deleteU` (and `hrunU`, the histories over them) — they differ from `insert` / `delete` at the five arithmetic sites of
+trie.go and nowhere else (the block-number subtraction of the proof walk is guarded by a comparison, the weight sum of
+DeserializeNode is modelled modulo 2^64 already). The no-overflow hypothesis of every storage theorem above is the
+`hok` they already carry: the total weight of the spec trie stays below 2^64 after every prefix (`PTOK`).
+
+  wraparound_insert / wraparound_delete   one insert / delete: if the total weight is below 2^64 before and after, the
+                   wrap-around version yields the same node, error and queue entries (the int64 delta is the model's
+                   delta wrapped — it may differ as a number when |delta| >= 2^63, `delta_wraps` — and
+                   `uint64(int64(weight) + delta)` is right all the same); in-memory variants `*_mem`
+  C09_no_wraparound / C09_no_wraparound_gc   whole histories (without / with GC passes), exactly under the hypotheses of
+                   C09_through_storage resp. C11_recoverable_partial: the run over Go's arithmetic IS the model's run
+  overflow_differs the hypothesis is needed: two weights of 2^63 give a root weight of 0 instead of 2^64
+
 See notes/C09.md for what ties these to the implementation-shaped model and what is checked by correspondence only.
 -/
 import Verif.Lemmas.WmptSpec
@@ -39,6 +54,7 @@ import Verif.Lemmas.WmptCanon
 import Verif.Lemmas.WmptModelRun
 import Verif.Lemmas.WmptHistoryInv
 import Verif.Lemmas.WmptHistorySpec
+import Verif.Lemmas.WmptU64
 namespace Verif.Props.C09
 open Verif.Wmpt
 
@@ -205,6 +221,81 @@ theorem C09_root_through_storage (H : Bytes → Bytes) (hlen : ∀ x, (H x).leng
   have hok64 := proj_opsOK ops hall
   rw [hr, specRun_eq_ptRun]
   exact ⟨(root_canon H 64 _ hok64).2, (history_content 64 _ hok64).1⟩
+
+/-! ### Go's fixed-width arithmetic -/
+
+/-- one `insert` over Go's wrap-around arithmetic on a storage-backed trie whose total weight is below 2^64 before
+    (`PTOK`) and after: same node, same error, same queue entries; the int64 delta is the model's delta wrapped -/
+theorem wraparound_insert (H : Bytes → Bytes) (hlen : ∀ x, (H x).length = 32) (s : Store) (v : Bytes) (w : Nat)
+    (fuel : Nat) (n : WN) (t : PT) (m : Nat) (key : List Nib)
+    (hrep : RepS H s n t) (hu : Uniform m t) (hok : RepOps.PTOK t) (hnew : (t.insert key v w).weight < 2 ^ 64)
+    (hk : key.length = m) (hf : RepOps.need n key ≤ fuel) :
+    (insertU true s fuel n key (.value [] v w true)).node = (insert true s fuel n key (.value [] v w true)).node ∧
+    (insertU true s fuel n key (.value [] v w true)).err = (insert true s fuel n key (.value [] v w true)).err ∧
+    (insertU true s fuel n key (.value [] v w true)).td = (insert true s fuel n key (.value [] v w true)).td ∧
+    (insertU true s fuel n key (.value [] v w true)).change =
+      wrapI64 (insert true s fuel n key (.value [] v w true)).change :=
+  insertU_eq hlen v w fuel n t m key hrep hu hok hnew hk hf
+
+/-- one `delete` over the wrap-around arithmetic: identical result (weights only shrink) -/
+theorem wraparound_delete (H : Bytes → Bytes) (hlen : ∀ x, (H x).length = 32) (s : Store)
+    (fuel : Nat) (n : WN) (t : PT) (m : Nat) (key : List Nib)
+    (hrep : RepS H s n t) (hne : RepOps.NoEmp n) (hu : Uniform m t) (hok : RepOps.PTOK t)
+    (hk : key.length = m) (hf : RepOps.need n key ≤ fuel) :
+    deleteU H true s fuel n key = delete H true s fuel n key :=
+  deleteU_eq_delete hlen fuel n t m key hrep hne hu hok hk hf
+
+/-- the same for in-memory tries (any database flag) -/
+theorem wraparound_insert_mem (hasDb : Bool) (s : Store) (v : Bytes) (w : Nat) {fuel m : Nat} {n : WN} {t : PT}
+    {key : List Nib} (g : Good m n t) (hk : key.length = m) (hf : key.length + 1 ≤ fuel) (hold : t.weight < 2 ^ 64)
+    (hnew : (t.insert key v w).weight < 2 ^ 64) :
+    (insertU hasDb s fuel n key (.value [] v w true)).node = (insert hasDb s fuel n key (.value [] v w true)).node ∧
+    (insertU hasDb s fuel n key (.value [] v w true)).err = (insert hasDb s fuel n key (.value [] v w true)).err ∧
+    (insertU hasDb s fuel n key (.value [] v w true)).td = (insert hasDb s fuel n key (.value [] v w true)).td ∧
+    (insertU hasDb s fuel n key (.value [] v w true)).change =
+      wrapI64 (insert hasDb s fuel n key (.value [] v w true)).change :=
+  insertU_eq_mem (hasDb := hasDb) (s := s) v w g hk hf hold hnew
+
+theorem wraparound_delete_mem (H : Bytes → Bytes) (hasDb : Bool) (s : Store) {fuel m : Nat} {n : WN} {t : PT}
+    {key : List Nib} (g : Good m n t) (hk : key.length = m) (hf : key.length + 1 ≤ fuel) (hold : t.weight < 2 ^ 64) :
+    deleteU H hasDb s fuel n key = delete H hasDb s fuel n key :=
+  deleteU_eq_delete_mem fuel n t m key g.abs_eq g.winv g.noEmpty g.uniform hk hf hold
+
+/-- whole histories, exactly under the hypotheses of `C09_through_storage` (`hok`: the total weight stays below 2^64
+    after every prefix): the run over Go's wrap-around arithmetic is the model's run — so every theorem about `hrun`
+    is a theorem about the fixed-width arithmetic, and `hok` is the only place where it could differ -/
+theorem C09_no_wraparound (H : Bytes → Bytes) (hlen : ∀ x, (H x).length = 32) (ops : List HOp)
+    (hall : ∀ op ∈ ops, op.plain ∧ op.wf)
+    (hok : ∀ p q, ops = p ++ q → RepOps.PTOK (specRun p))
+    (hinj : ∀ p lvl q, ops = p ++ .commit lvl :: q → HashInj H (fun x => PT.Sub x (specRun p))) :
+    hrunU H ops = hrun H ops :=
+  hrunU_eq hlen ops hall hok hinj
+
+/-- …and for histories with GC passes, under the hypotheses of C11's `C11_recoverable_partial` -/
+theorem C09_no_wraparound_gc (H : Bytes → Bytes) (hlen : ∀ x, (H x).length = 32) (ops : List HOp)
+    (hall : ∀ op ∈ ops, op.plainGC ∧ op.wf)
+    (hok : ∀ p q, ops = p ++ q → RepOps.PTOK (specRun p) ∧ Distinct H (specRun p)) :
+    hrunU H ops = hrun H ops :=
+  hrunU_eq_gc hlen ops hall hok
+
+/-- the hypothesis is needed: two entries of weight 2^63 — the model's root weighs 2^64, Go's `uint64` shows 0 -/
+theorem overflow_differs :
+    let v1 : WN := .value [] [1] (2 ^ 63) true
+    let v2 : WN := .value [] [2] (2 ^ 63) true
+    let r1 := insert false [] 2 .empty [1] v1
+    let r2 := insert false [] 2 r1.node [2] v2
+    let u1 := insertU false [] 2 .empty [1] v1
+    let u2 := insertU false [] 2 u1.node [2] v2
+    r1.err = none ∧ r2.err = none ∧ u1.err = none ∧ u2.err = none ∧
+      r1.node.weight = 2 ^ 63 ∧ u1.node.weight = 2 ^ 63 ∧ r2.node.weight = 2 ^ 64 ∧ u2.node.weight = 0 :=
+  Verif.Wmpt.overflow_differs
+
+/-- the int64 delta itself wraps for a weight of 2^63 (not an int64), the resulting weight is right all the same -/
+theorem delta_wraps :
+    (insertU false [] 2 .empty [1] (.value [] [1] (2 ^ 63) true)).change = -(2 ^ 63) ∧
+    (insert false [] 2 .empty [1] (.value [] [1] (2 ^ 63) true)).change = 2 ^ 63 ∧
+    (insertU false [] 2 .empty [1] (.value [] [1] (2 ^ 63) true)).node.weight = 2 ^ 63 :=
+  ⟨change_wraps.1, change_wraps.2, Verif.Wmpt.overflow_differs.2.2.2.2.2.1⟩
 
 /-- non-vacuity of the history theorems: delete-then-reinsert and a different insertion order give the same trie -/
 example :
